@@ -124,7 +124,7 @@ def _account(run, recs, res, name, strict_too, what):
         elif rec.get("ev") == "tree":
             key = "store:tree:outside-root"
         else:
-            key = "store:%s:%s:%s" % (what, rec.get("ev"), res_class(sc, rec))
+            key = "store:%s:%s:%s" % (what, rec.get("ev"), res_class(sc, rec, rj["line"] - 1 - start))
         run.violation(key, "rejected by StoreAbs (relaxed judge) at line %d: %s" % (rj["line"], json.dumps(rec)[:300]),
                       {"part": name, "scenario": sc, "rejected": rec, "strict": False})
     strict_only = []
@@ -143,15 +143,13 @@ def _account(run, recs, res, name, strict_too, what):
     return nsc, strict_only
 
 
-def res_class(sc, rec):
+def res_class(sc, rec, pos):
     if rec.get("ev") == "res":
         kind = "?"
-        for r in sc:
+        for r in sc[:pos]:
             if r.get("ev") == "inv" and r.get("t") == rec.get("t"):
                 kind = r.get("kind")
-            if r is rec:
-                break
-        crashed = any(r.get("ev") == "crash" for r in sc)
+        crashed = any(r.get("ev") == "crash" for r in sc[:pos])
         return "%s->%s%s" % (kind, rec.get("r"), ":after-crash" if crashed else "")
     return rec.get("kind", "?")
 
